@@ -879,6 +879,11 @@ theorem bytesOfBits_exact (bs : List UInt8) : bytesOfBits ((bytesToBits bs).leng
   have := bytesOfBits_bytesToBits bs []
   rwa [List.append_nil] at this
 
+/-- the same fact in the form `simp` reaches once `bytesToBits_length` has normalised the length -/
+theorem bytesOfBits_exact' (bs : List UInt8) : bytesOfBits bs.length (bytesToBits bs) = bs := by
+  have := bytesOfBits_bytesToBits bs []
+  rwa [List.append_nil] at this
+
 theorem primOK_bytesSnake : PrimOK .bytesSnake := by
   intro v b b' _ hd he
   cases v <;> simp only [Prim.inDom, Bool.false_eq_true] at hd
@@ -892,7 +897,7 @@ theorem primOK_bytesSnake : PrimOK .bytesSnake := by
   · obtain ⟨s', hs'⟩ := snake_dec (bytesToBits bs) xs rs s h1 h2 hcase
     refine ⟨s', ?_, fun hng => by simp [Prim.greedy] at hng⟩
     have hl : (bytesToBits bs).length % 8 = 0 := by rw [bytesToBits_length]; omega
-    simp [Prim.dec, hs', bind, Outcome.bind, pure, hl, bytesOfBits_exact]
+    simp [Prim.dec, hs', bind, Outcome.bind, pure, hl, bytesOfBits_exact, bytesOfBits_exact']
 
 theorem primOK_text : PrimOK .text := by
   intro v b b' _ hd he
@@ -907,7 +912,7 @@ theorem primOK_text : PrimOK .text := by
   · obtain ⟨s', hs'⟩ := snake_dec (bytesToBits bs) xs rs s h1 h2 hcase
     refine ⟨s', ?_, fun hng => by simp [Prim.greedy] at hng⟩
     have hl : (bytesToBits bs).length % 8 = 0 := by rw [bytesToBits_length]; omega
-    simp [Prim.dec, hs', bind, Outcome.bind, pure, hl, bytesOfBits_exact, hd]
+    simp [Prim.dec, hs', bind, Outcome.bind, pure, hl, bytesOfBits_exact, bytesOfBits_exact', hd]
 
 
 /-- every hand-written codec marked `proved` has its round-trip lemma -/
